@@ -427,8 +427,10 @@ Definition C13c_check (c : c13c_case) : verdict :=
   | Some w => DIVERGE w
   | None =>
       (* the anchor's rule selects every pod: each pod event wakes it, whatever the other parent's answer *)
-      if existsb (fun u => negb (is_p1_sync u) && match u_round u with None => negb (u_woken u) | Some _ => false end)
-                 (c13c_uses c)
+      (* observed with a time-out: a single miss is tolerated as scheduling noise, a repeated one is not *)
+      if Nat.leb 2 (List.length (filter (fun u => negb (is_p1_sync u) &&
+                                                  match u_round u with None => negb (u_woken u) | Some _ => false end)
+                                        (c13c_uses c)))
       then DIVERGE "anchor-parent-not-woken" else OK
   end.
 
@@ -468,5 +470,34 @@ Definition C12c_check (c : c12c_case) : verdict :=
       match first_some (fun steps => c12c_build_fail (c15_cfg b) good [] steps 0) (c15_builds b) with
       | Some w => PROPFAIL w
       | None => C15_check b
+      end
+  end.
+
+(* ================= C17c: the shared related informers' objects are never mutated (a leg of property C17) =================
+   The C15 scenarios, related objects seeded as a real server returns them (managedFields, annotations, status).
+   c17c_mutated: per step "" or which cached object (related <Kind> | parent), taken by pointer before the step,
+   differed from its deep copy after it. *)
+Record c17c_case := mkC17c { c17c_base : c15case; c17c_mutated : list string }.
+
+Definition c17c_rounds (b : c15case) : list round :=
+  flat_map (fun steps => flat_map (fun s => match s with StSync r => [r] | StProbe _ => [] end) steps) (c15_builds b).
+
+Definition C17c_check (c : c17c_case) : verdict :=
+  let b := c17c_base c in
+  match find (fun s => negb (String.eqb s "")) (c17c_mutated c) with
+  | Some s => PROPFAIL ("shared-cache-mutated-" ++ s)%string
+  | None =>
+      (* the parent / child / revision caches, by the composite world's own oracle *)
+      match find (fun r => negb (String.eqb (r_cache_mutated r) "")) (c17c_rounds b) with
+      | Some r => PROPFAIL ("shared-cache-mutated-" ++ r_cache_mutated r)%string
+      | None =>
+          (* what the hooks are sent is what the caches hold: C15's exactness clause compares whole objects
+             (managedFields, annotations, status included) *)
+          match C15_check b with
+          | PROPFAIL w =>
+              if String.prefix "related-differs-from-rule-selection" w
+              then PROPFAIL ("hook-sent-differs-from-cache:" ++ w)%string else PROPFAIL w
+          | v => v
+          end
       end
   end.
